@@ -1469,6 +1469,11 @@ impl Engine for Usim {
         vec!["C05", "C12"]
     }
 
+    fn hang_is_violation(prop: &str) -> bool {
+        // these properties promise that calls complete (never deadlock / always complete / instead of hanging)
+        matches!(prop, "C12")
+    }
+
     fn rule(prop: &str) -> String {
         let common = "case = how the pool is built (new / from_config / From<Vec>), max_size 0..=4 and a history of get / try_get / timeout_get / add / try_add / remove / try_remove / take / return / poll / cancel / close steps with optional thread-level pauses at schedule points; distinct by hash of the whole case. Non-trivial: ";
         let r = match prop {
